@@ -321,6 +321,10 @@ def judge(opname, fixture, plan, out, pid, clean_value, acc):
                 pass        # something *was* refused: AccessDenied naming the refused process is a correct report
             elif kind in ("NoSuchProcess", "ZombieProcess", "AccessDenied") and opname in ("children", "children_rec", "process_iter_attrs"):
                 viols.append((f"relative_fault_escapes_{kind}:{opname}", desc))
+            elif kind in ("NoSuchProcess", "ZombieProcess") and opname in ("parent", "parents") and not denied:
+                # the caller is alive: that its parent (an ancestor) went away or became a zombie meanwhile is an answer
+                # (None, a shorter chain), not an error about somebody else's pid
+                viols.append((f"relative_fault_escapes_{kind}:{opname}", desc))
     else:
         acc.count("values_returned_under_fault")
         if clean_value is not None and not shape_compatible(val, clean_value):
@@ -664,6 +668,62 @@ def run_realfault(shard, acc):
                                                                       fired=[list(f) for f in out["fired"]]))
 
 
+def run_held_iterator(acc):
+    """The process goes away while the generator of process_iter(attrs=...) that yielded its object is still suspended (the
+    caller is in the body of its for loop, or keeps the iterator): "once the process is gone every later query on that object
+    raises NoSuchProcess" - whatever the library cached for the caller while it built `info`."""
+    env = setup()
+    ps, vkernel = env["ps"], env["vkernel"]
+    for attrs in (["name", "status"], ["pid", "ppid", "cpu_times"], ["uids", "num_threads", "memory_maps"], []):
+        for how in ("vanish", "zombify"):
+            t, pid = env["fixtures"].rich_table()
+            vk = vkernel.VK()
+            vk.table = t
+            vk.mount("/vproc", t)
+            vk.mount("/vmapped", vkernel.MemFS({}))
+            viols = []
+            case = dict(kind="held_iterator", attrs=attrs, how=how)
+            with vk:
+                ps.process_iter.cache_clear()
+                it = ps.process_iter(attrs=attrs)
+                obj = None
+                for p in it:
+                    if p.pid == pid:
+                        obj = p
+                        break
+                if obj is None:
+                    acc.inconclusive = "held_iterator: the fixture process was not yielded"
+                    return
+                if how == "vanish":
+                    t.remove(pid)
+                else:
+                    t.exit(pid, 0)
+                later = [(n, f) for n, f in env["ops"].items() if f is not None and n not in ("oneshot_multi", "process_iter_attrs")]
+                for name, fn in later:
+                    acc.count("queries_on_an_object_yielded_by_a_suspended_process_iter")
+                    try:
+                        res = ("value", fn(obj))
+                    except ps.ZombieProcess as e:
+                        res = ("ZombieProcess", e.pid)
+                    except ps.NoSuchProcess as e:
+                        res = ("NoSuchProcess", e.pid)
+                    except ps.AccessDenied as e:
+                        res = ("AccessDenied", e.pid)
+                    except BaseException as e:  # noqa: BLE001
+                        res = ("leak", f"{type(e).__name__}: {e}")
+                    if name in NON_RAISING_AFTER_GONE or name in ("create_time", "exe", "pid"):
+                        continue        # documented not to raise / answers remembered for the life of the object
+                    if res[0] == "leak":
+                        viols.append((f"post_gone_leak:{res[1].split(':')[0]}:{name}:object_yielded_by_suspended_process_iter", f"{case} -> {res}"))
+                    elif how == "vanish" and res != ("NoSuchProcess", pid):
+                        viols.append((f"post_gone_value:{name}:object_yielded_by_suspended_process_iter", f"{case}: {name} -> {str(res)[:200]}"))
+                    elif how == "zombify" and name == "status" and res != ("value", "zombie"):
+                        viols.append(("zombie_status_stale:object_yielded_by_suspended_process_iter", f"{case}: status -> {str(res)[:100]}"))
+                it.close()
+                ps.process_iter.cache_clear()
+            acc.case(case, True, viols)
+
+
 def run_asdict_policy(fixture, acc):
     """as_dict() / process_iter(attrs) policy, attribute by attribute: a slot holds ad_value exactly when the method of that
     name raises AccessDenied or ZombieProcess for this process, otherwise what the method returns (static fixture).  Asked in
@@ -712,7 +772,7 @@ def run_asdict_policy(fixture, acc):
 
 def plan(tier, seed):
     names = [n for n, _ in ops_names()]
-    shards = [dict(kind="shimdiff")] + [dict(kind="asdict_policy", fixture=f) for f in ("live", "zombie", "kthread")]
+    shards = [dict(kind="shimdiff"), dict(kind="held_iterator")] + [dict(kind="asdict_policy", fixture=f) for f in ("live", "zombie", "kthread")]
     for fixture in ("live", "zombie", "kthread"):
         step = 4 if fixture != "kthread" else 8
         for chunk in range(0, len(names), step):
@@ -736,6 +796,8 @@ def run_shard(shard):
     setup()
     if shard["kind"] == "realfault":
         run_realfault(shard, acc)
+    elif shard["kind"] == "held_iterator":
+        run_held_iterator(acc)
     elif shard["kind"] == "asdict_policy":
         run_asdict_policy(shard["fixture"], acc)
     elif shard["kind"] == "enum":
